@@ -18,7 +18,8 @@ c_b   == <<"/", "b">>
 c_aba == <<"/", "a", "/", "b", "/", "a">>
 c_aa  == <<"/", "a", "/", "a">>
 c_aabb == <<"/", "a", "b", "/", "b">>     \* "/ab/b": /a is a textual prefix, and a further segment follows
-Cmds5 == {c_top, c_a, c_ab, c_aab, c_b, c_aabb}
+c_a_b == <<"/", "a", "/", "/", "b">>       \* "/a//b": an empty segment is a segment
+Cmds5 == {c_top, c_a, c_ab, c_aab, c_b, c_aabb, c_a_b}
 Cmds7 == Cmds5 \cup {c_aba, c_aa}
 
 MissingLink == [missing |-> TRUE, iss |-> "A", aud |-> "A", sub |-> "A", cmd |-> c_top,
@@ -63,7 +64,7 @@ C03_Link3 == C03_Link(3)
 
 \* ---- C04: time windows free; bounds at even instants, probes at odd ones ----
 Bnd == {-1, 2, 4}
-C04_Inv  == Invs({"S"}, {"S"}, {None}, {c_a}, {0}, Bnd, {"none"}, {0})
+C04_Inv  == Invs({"S"}, {"S"}, {None}, {c_a}, {0}, Bnd, {"none"}, {0, 1})    \* irr = 1: an issue time two days in the past
 C04_Link == Links({"S"}, {"S"}, {"S"}, {c_a}, {<<>>}, Bnd, Bnd)
 
 \* ---- C05: conforming chains generated constructively; irrelevant fields free ----
